@@ -75,6 +75,20 @@ type HistIn struct {
 	Initial []HObj     `json:"initial,omitempty"`
 	Nss     []HNsState `json:"nss,omitempty"`
 	SelExpr bool       `json:"sel_expr,omitempty"` // the selector is written with matchExpressions
+	// Comp: a second binding of the same kind and names with STATIC namespaces, in the same process
+	// (model coq/theories/C01_Comp.v): its informers share the first binding's shared informers
+	Comp *CompIn `json:"comp,omitempty"`
+}
+
+// CompIn: the companion binding.  First: its monitor is created, started and unlocked before the
+// first binding's (else after); SameDebug: both monitors carry the same debug name (binding
+// names repeat across hooks: kubernetes[0], "pods" ...).
+type CompIn struct {
+	Nss       []int    `json:"nss"`
+	Types     []string `json:"types"`
+	Filter    bool     `json:"filter"`
+	First     bool     `json:"first,omitempty"`
+	SameDebug bool     `json:"same_debug,omitempty"`
 }
 type HEv struct {
 	Ns   int    `json:"ns"`
@@ -86,6 +100,9 @@ type HistObs struct {
 	Out    []HEv  `json:"out"`
 	Before int    `json:"before_unlock"` // events handed over before EnableKubeEventCb
 	Note   string `json:"note,omitempty"`
+	// the companion binding's events
+	COut    []HEv `json:"c_out,omitempty"`
+	CBefore int   `json:"c_before_unlock,omitempty"`
 }
 
 const histLabel = "c01-hist"
@@ -108,8 +125,9 @@ type histRun struct {
 	fc    *fake.Cluster
 	ctx   context.Context
 	vm    *kubeeventsmanager.VerifC01Monitor
-	objs  map[[2]int]int // the cluster's objects
-	nsLab map[int]bool   // existing namespaces -> carries the label
+	vmc   *kubeeventsmanager.VerifC01Monitor // the companion binding's monitor
+	objs  map[[2]int]int                     // the cluster's objects
+	nsLab map[int]bool                       // existing namespaces -> carries the label
 	// a Namespace object is in the fake (and carries the matching label)
 	inFake, fakeMatch map[int]bool
 	dirty             map[int]bool // object operations since the namespace's last flush
@@ -165,6 +183,52 @@ func (d *histRun) config() *kubeeventsmanager.MonitorConfig {
 	return mc
 }
 
+// compConfig: the companion - same kind, same names, no label selector, static namespaces
+func (d *histRun) compConfig() *kubeeventsmanager.MonitorConfig {
+	c := d.in.Comp
+	mc := &kubeeventsmanager.MonitorConfig{Kind: "ConfigMap", ApiVersion: "v1", KeepFullObjectsInMemory: true}
+	if c.Filter {
+		mc.JqFilter = ".data"
+	}
+	mc.Metadata.MonitorId = "mc"
+	mc.Metadata.DebugName = "c01-comp"
+	if c.SameDebug {
+		mc.Metadata.DebugName = "c01-hist"
+	}
+	mc.Metadata.LogLabels = map[string]string{}
+	mc.Metadata.MetricLabels = map[string]string{}
+	mc.EventTypes = []kemtypes.WatchEventType{}
+	for _, t := range c.Types {
+		mc.EventTypes = append(mc.EventTypes, watchType(t))
+	}
+	mc.Logger = log.NewNop()
+	if len(d.in.Names) > 0 {
+		var ns []string
+		for _, n := range d.in.Names {
+			ns = append(ns, hObj(n))
+		}
+		mc.NameSelector = &kemtypes.NameSelector{MatchNames: ns}
+	}
+	var nss []string
+	for _, n := range c.Nss {
+		nss = append(nss, hNs(n))
+	}
+	mc.NamespaceSelector = &kemtypes.NamespaceSelector{NameSelector: &kemtypes.NameSelector{MatchNames: nss}}
+	return mc
+}
+
+func (d *histRun) compCovers(n int) bool {
+	if d.in.Comp == nil || d.vmc == nil {
+		return false
+	}
+	for _, x := range d.in.Comp.Nss {
+		if x == n {
+			return true
+		}
+	}
+	return false
+}
+
 const histBound = 3 * time.Second // only ever reached when something is wrong
 
 // hasInformers: the namespace callback has registered informers for the namespace
@@ -189,22 +253,37 @@ func (d *histRun) waitVary(n int, want bool) bool {
 // factoryAlive: the factory store still holds a shared informer for the namespace (the
 // cancelled resource informers remove their handlers from a goroutine of their own).  The store
 // is exported, its map is not: read it under its own lock.
-func factoryAlive(ns string) bool {
+func factoryAlive(ns string) bool { return factoryHandlers(ns) >= 0 }
+
+// factoryHandlers: how many informers are registered on the shared informers of the namespace
+// (-1: the store holds none for it).
+func factoryHandlers(ns string) int {
 	v := reflect.ValueOf(kubeeventsmanager.DefaultFactoryStore).Elem()
 	mu := (*sync.Mutex)(unsafe.Pointer(v.FieldByName("mu").UnsafeAddr()))
 	mu.Lock()
 	defer mu.Unlock()
-	for _, k := range v.FieldByName("data").MapKeys() {
+	n := -1
+	data := v.FieldByName("data")
+	for _, k := range data.MapKeys() {
 		if k.FieldByName("Namespace").String() == ns {
-			return true
+			if n < 0 {
+				n = 0
+			}
+			n += data.MapIndex(k).FieldByName("handlerRegistrations").Len()
 		}
 	}
-	return false
+	return n
 }
 
+// waitStopped: the cancelled informers of the first binding have left the factory store; what
+// stays is the companion's informer of that namespace, if it has one.
 func (d *histRun) waitStopped(n int) {
+	want := -1
+	if d.compCovers(n) {
+		want = 1
+	}
 	deadline := time.Now().Add(histBound)
-	for factoryAlive(hNs(n)) && time.Now().Before(deadline) {
+	for factoryHandlers(hNs(n)) != want && time.Now().Before(deadline) {
 		time.Sleep(200 * time.Microsecond)
 	}
 }
@@ -212,14 +291,16 @@ func (d *histRun) waitStopped(n int) {
 // syncObjWatch returns when the informers that cover namespace n have delivered everything that
 // happened in it so far: a sentinel object (name n0, outside the histories) is made visible in
 // the snapshot, then deleted - its disappearance can only come through the watch.
-func (d *histRun) syncObjWatch(n int) {
+func (d *histRun) syncObjWatch(n int) { d.syncObjWatchOf(d.vm, n) }
+
+func (d *histRun) syncObjWatchOf(vm *kubeeventsmanager.VerifC01Monitor, n int) {
 	dyn := d.fc.Client.Dynamic().Resource(histGVR).Namespace(hNs(n))
 	id := hNs(n) + "/ConfigMap/" + hObj(0)
 	wait := func(want bool) bool {
 		deadline := time.Now().Add(50 * time.Millisecond)
 		for {
 			seen := false
-			for _, o := range d.vm.M.Snapshot() {
+			for _, o := range vm.M.Snapshot() {
 				seen = seen || o.Metadata.ResourceId == id
 			}
 			if seen == want {
@@ -251,7 +332,9 @@ func (d *histRun) syncObjWatch(n int) {
 		dyn.Delete(d.ctx, hObj(0), metav1.DeleteOptions{})
 		exists = false
 		if wait(false) {
-			d.dirty[n] = false
+			if vm == d.vm {
+				d.dirty[n] = false
+			}
 			return
 		}
 		put()
@@ -260,6 +343,7 @@ func (d *histRun) syncObjWatch(n int) {
 	if exists {
 		dyn.Delete(d.ctx, hObj(0), metav1.DeleteOptions{})
 	}
+	d.setNote(fmt.Sprintf("the watch of namespace %d did not deliver within %v", n, histBound))
 }
 
 // syncNsWatch returns when the namespace informer's watch delivers (sentinel namespace ns0).
@@ -397,6 +481,29 @@ func RunHist(in HistIn, ops []Op) HistObs {
 	for _, ob := range in.Initial {
 		putObj(ob)
 	}
+	// the companion binding (of another hook): AddMonitor, StartMonitor, Synchronization, unlock
+	startComp := func() bool {
+		if in.Comp == nil {
+			return true
+		}
+		vmc, err := kubeeventsmanager.NewVerifC01Monitor(ctx, d.fc.Client, mstor, d.compConfig())
+		if err != nil {
+			o.Note = "create companion: " + err.Error()
+			return false
+		}
+		vmc.M.Start(ctx)
+		_ = vmc.M.Snapshot()
+		o.CBefore = len(vmc.Events())
+		vmc.M.EnableKubeEventCb()
+		d.vmc = vmc
+		for _, n := range in.Comp.Nss {
+			d.syncObjWatchOf(vmc, n)
+		}
+		return true
+	}
+	if in.Comp != nil && in.Comp.First && !startComp() {
+		return o
+	}
 	// AddMonitor, StartMonitor, (the Synchronization), the unlock
 	vm, err := kubeeventsmanager.NewVerifC01Monitor(ctx, d.fc.Client, mstor, d.config())
 	if err != nil {
@@ -411,6 +518,9 @@ func RunHist(in HistIn, ops []Op) HistObs {
 	d.syncNsWatch()
 	for _, n := range d.matchingNss() {
 		startNs(n)
+	}
+	if in.Comp != nil && !in.Comp.First && !startComp() {
+		return o
 	}
 
 	for _, op := range ops {
@@ -433,6 +543,13 @@ func RunHist(in HistIn, ops []Op) HistObs {
 			case op.Label:
 				// created with the label / given the label (the filtered watch: ADDED) / a
 				// change that keeps it matching (MODIFIED)
+				if !was && d.compCovers(op.Ns) {
+					// the namespace's shared informer already runs (for the companion): the first
+					// binding's new informers attach to it.  What happened in the namespace so far
+					// is delivered first, else the new informers would be handed changes that are
+					// older than the namespace's match (a lagging watch, not a property of the code)
+					d.syncObjWatchOf(d.vmc, op.Ns)
+				}
 				putNs(op.Ns, true)
 				if !was {
 					startNs(op.Ns)
@@ -459,7 +576,20 @@ func RunHist(in HistIn, ops []Op) HistObs {
 			d.syncObjWatch(n)
 		}
 	}
-	for _, e := range vm.Events() {
+	if d.vmc != nil {
+		for _, n := range in.Comp.Nss {
+			d.syncObjWatchOf(d.vmc, n)
+		}
+		o.COut = hevents(d.vmc.Events())
+	}
+	o.Out = hevents(vm.Events())
+	o.Note = d.note
+	return o
+}
+
+func hevents(evs []kemtypes.KubeEvent) []HEv {
+	var out []HEv
+	for _, e := range evs {
 		ev := HEv{Ns: -1, Name: -1, Proj: -1}
 		if len(e.WatchEvents) > 0 {
 			ev.Kind = string(e.WatchEvents[0])
@@ -488,10 +618,9 @@ func RunHist(in HistIn, ops []Op) HistObs {
 		if ev.Name == 0 || ev.Ns == 0 {
 			continue // the harness's sentinels
 		}
-		o.Out = append(o.Out, ev)
+		out = append(out, ev)
 	}
-	o.Note = d.note
-	return o
+	return out
 }
 
 // ---- rendering ----
@@ -523,15 +652,29 @@ func RenderHist(in HistIn, ops []Op, obs *HistObs, crash string) core.Case {
 		o = *obs
 	}
 	c := core.Case{}
-	c.Coq = fmt.Sprintf("CHist (mkHistIn %s %s %s %s %s\n %s)\n (mkHOb %s %d %s)",
+	coqEvs := func(l []HEv) string {
+		return core.CoqList(l, func(e HEv) string {
+			return fmt.Sprintf("(%d, %d, %s, %d)", nn(e.Ns), nn(e.Name), coqKind(e.Kind), nn(e.Proj))
+		})
+	}
+	histIn := fmt.Sprintf("(mkHistIn %s %s %s %s %s\n %s)",
 		core.CoqList(in.Names, core.CoqN), core.CoqList(in.Types, coqKind), core.CoqBool(in.Filter),
 		core.CoqList(in.Initial, func(ob HObj) string { return fmt.Sprintf("(%d, %d, %d)", ob.Ns, ob.Name, ob.Proj) }),
 		core.CoqList(in.Nss, func(s HNsState) string { return fmt.Sprintf("(%d, %s)", s.Ns, core.CoqBool(s.Label)) }),
-		core.CoqList(ops, coqHop),
-		core.CoqList(o.Out, func(e HEv) string { return fmt.Sprintf("(%d, %d, %s, %d)", nn(e.Ns), nn(e.Name), coqKind(e.Kind), nn(e.Proj)) }),
-		o.Before, core.CoqBool(crash != "" || o.Note != ""))
+		core.CoqList(ops, coqHop))
+	bad := core.CoqBool(crash != "" || o.Note != "")
+	if in.Comp == nil {
+		c.Coq = fmt.Sprintf("CHist %s\n (mkHOb %s %d %s)", histIn, coqEvs(o.Out), o.Before, bad)
+	} else {
+		c.Coq = fmt.Sprintf("CHist2 %s\n (mkCompIn %s %s %s %s)\n (mkHOb %s %d %s)\n (mkHOb %s %d %s)", histIn,
+			core.CoqList(in.Comp.Nss, core.CoqN), core.CoqList(in.Names, core.CoqN), core.CoqList(in.Comp.Types, coqKind), core.CoqBool(in.Comp.Filter),
+			coqEvs(o.Out), o.Before, bad, coqEvs(o.COut), o.CBefore, bad)
+	}
 	c.JSON = map[string]any{"hist": o, "crash": crash}
 	c.Key = "hist" + fmt.Sprint(in.Names, in.Types, in.Filter, in.Initial, in.Nss, in.SelExpr, ops)
+	if in.Comp != nil {
+		c.Key += fmt.Sprint(*in.Comp)
+	}
 
 	// what the history contains (tags)
 	objs := map[[2]int]bool{}
@@ -619,6 +762,15 @@ func RenderHist(in HistIn, ops []Op, obs *HistObs, crash string) core.Case {
 	}
 	c.Tags = []string{"class:hist", fmt.Sprintf("hist-ops:%02d", len(ops)/4*4), fmt.Sprintf("hist-types:%d", len(in.Types)),
 		fmt.Sprintf("hist-filter:%v", in.Filter), fmt.Sprintf("hist-namesel:%v", len(in.Names) > 0), fmt.Sprintf("hist-events:%02d", len(o.Out)/3*3)}
+	if in.Comp != nil {
+		c.Tags = append(c.Tags, "hist-companion", fmt.Sprintf("hist-companion-first:%v", in.Comp.First),
+			fmt.Sprintf("hist-companion-same-debug-name:%v", in.Comp.SameDebug), fmt.Sprintf("hist-companion-events:%02d", len(o.COut)/3*3))
+		for _, n := range in.Comp.Nss {
+			if stopped[n] != "" {
+				tags["hist-companion-ns-stopped-matching-first-binding"] = true
+			}
+		}
+	}
 	for t := range tags {
 		c.Tags = append(c.Tags, t)
 	}
@@ -795,6 +947,14 @@ func histCorpus() []core.In[Input] {
 	// nameSelector (repeated name) beside namespace.labelSelector
 	c("corpus", HistIn{Names: []int{2, 2}, Types: all, Nss: []HNsState{{1, true}, {3, true}}, Initial: []HObj{{1, 2, 1}}},
 		set(3, 2, 2), set(1, 2, 3), del(1, 2), nsDel(1), nsSet(1, true), set(1, 2, 4), nsSet(2, true), set(2, 2, 5))
+	// beside a companion binding with static namespaces (same debug name, created after / before): the namespace stops
+	// matching the first binding - its informers are cancelled - while the companion goes on watching it
+	c("corpus", HistIn{Types: all, Nss: []HNsState{{1, true}}, Initial: []HObj{{1, 1, 1}}, Comp: &CompIn{Nss: []int{1}, Types: all, SameDebug: true}},
+		set(1, 1, 2), nsSet(1, false), set(1, 1, 3), set(1, 2, 4), del(1, 1), nsSet(1, true), set(1, 3, 5))
+	c("corpus", HistIn{Types: all, Nss: []HNsState{{1, true}, {2, true}}, Comp: &CompIn{Nss: []int{1, 2}, Types: all, First: true}},
+		set(1, 1, 1), del(1, 1), nsDel(1), nsSet(1, false), set(1, 2, 2), set(2, 1, 3), nsSet(2, false), set(2, 1, 4))
+	c("corpus", HistIn{Types: all, Nss: []HNsState{{1, true}}, Comp: &CompIn{Nss: []int{1}, Types: []string{"Added", "Deleted"}, Filter: true}},
+		set(1, 1, 1), del(1, 1), nsDel(1), nsSet(1, false), set(1, 2, 2), set(1, 2, 12), del(1, 2))
 	// trigger F24 (recorded finding): the namespace brings objects along; their later changes ARE reported
 	c("trigger-F24", HistIn{Types: all}, set(1, 1, 1), set(1, 2, 1), nsSet(1, true), set(1, 1, 2), del(1, 2), set(1, 3, 3))
 	c("trigger-F24", HistIn{Types: all, Nss: []HNsState{{1, true}}, Initial: []HObj{{1, 1, 1}}},
